@@ -66,3 +66,93 @@ Fixpoint render_comments (indent : str) (first : bool) (cs : list str) : str :=
 
 Definition indent_text (cfg : wcfg) (level : Z) : str :=
   repeat_app (Z.to_nat level) (match w_indent cfg with [] => default_indent | i => i end).
+
+(* ---- comments at statement boundaries (C15) ---- *)
+
+(* the first token the parser reads of an expression / a statement *)
+Fixpoint first_tok_expr (e : expr) : option token :=
+  match e with
+  | ENil => None
+  | EIdent i => Some (id_tok i)
+  | EInt t | EFloat t | EString t _ | ERaw t _ | EBool t _ | ENull t => Some t
+  | ELet t _ _ | EUnary t _ _ | EGroup t _ _ | EFunc t _ _ _ | EArray t _ _ | EObject t _ _ => Some t
+  | EBinary _ l _ _ | EPostfix _ l _ | ECall _ l _ | EMember _ l _ _ | EAssign _ l _ | ECompound _ l _ _ => first_tok_expr l
+  end.
+
+Definition first_tok_stmt (s : stmt) : option token :=
+  match s with
+  | SNil => None
+  | SLet t _ _ | SReturn t _ | SFunc t _ _ _ | SBlock t _ _ | SIf t _ _ _ | SWhile t _ _ | SFor t _ _ _ _ => Some t
+  | SExpr e => first_tok_expr e
+  end.
+
+Definition trivia_of (o : option token) : list (list str) :=
+  match o with Some t => [t_comments t] | None => [] end.
+
+(* the trivia lists found at the statement boundaries of a tree, in source order: in front
+   of every statement of every statement list (program, blocks, function bodies, at any
+   depth), in front of every closing brace of a block, and in front of the end of input.
+   An item of a trivia list is a comment's text, or [] for a blank line; the first item of a
+   list is what follows the previous token on its line (a trailing comment). *)
+Fixpoint bnd_expr (e : expr) : list (list str) :=
+  let fix exprs (es : list expr) := match es with [] => [] | x :: r => bnd_expr x ++ exprs r end in
+  let fix props (ps : list (expr * expr)) :=
+    match ps with [] => [] | (k, v) :: r => bnd_expr k ++ bnd_expr v ++ props r end in
+  match e with
+  | ENil | EIdent _ | EInt _ | EFloat _ | EString _ _ | ERaw _ _ | EBool _ _ | ENull _ => []
+  | ELet _ _ v => bnd_expr v
+  | EBinary _ l _ r => bnd_expr l ++ bnd_expr r
+  | EUnary _ _ r => bnd_expr r
+  | EPostfix _ l _ => bnd_expr l
+  | EGroup _ x _ => bnd_expr x
+  | ECall _ f args => bnd_expr f ++ exprs args
+  | EMember _ o p _ => bnd_expr o ++ bnd_expr p
+  | EAssign _ l v => bnd_expr l ++ bnd_expr v
+  | ECompound _ l _ v => bnd_expr l ++ bnd_expr v
+  | EFunc _ _ _ body => bnd_stmt body
+  | EArray _ es _ => exprs es
+  | EObject _ ps _ => props ps
+  end
+with bnd_stmt (s : stmt) : list (list str) :=
+  let fix stmts (ss : list stmt) :=
+    match ss with [] => [] | x :: r => trivia_of (first_tok_stmt x) ++ bnd_stmt x ++ stmts r end in
+  match s with
+  | SNil => []
+  | SLet _ _ v => bnd_expr v
+  | SReturn _ v => bnd_expr v
+  | SExpr e => bnd_expr e
+  | SFunc _ _ _ body => bnd_stmt body
+  | SBlock _ ss rb => stmts ss ++ [t_comments rb]
+  | SIf _ c a b => bnd_expr c ++ bnd_stmt a ++ bnd_stmt b
+  | SWhile _ c b => bnd_expr c ++ bnd_stmt b
+  | SFor _ i c u b => bnd_expr i ++ bnd_expr c ++ bnd_expr u ++ bnd_stmt b
+  end.
+
+Fixpoint bnd_stmts (ss : list stmt) : list (list str) :=
+  match ss with [] => [] | x :: r => trivia_of (first_tok_stmt x) ++ bnd_stmt x ++ bnd_stmts r end.
+
+Definition boundary_trivia (p : program) : list (list str) := bnd_stmts (p_stmts p) ++ [t_comments (p_eof p)].
+
+(* what pretty printing keeps of the boundary trivia: every statement starts a line of its
+   own, so an empty list (same line) becomes a plain line break; blank lines before the
+   first statement and after the last item of the input are trimmed with the text *)
+Definition is_blank_item (c : str) : bool := match c with [] => true | _ => false end.
+Fixpoint drop_blank_items (l : list str) : list str :=
+  match l with c :: r => if is_blank_item c then drop_blank_items r else l | [] => [] end.
+Definition own_line (tr : list str) : list str := match tr with [] => [[]] | _ => tr end.
+Definition trim_first (tr : list str) : list str :=
+  match tr with c :: r => own_line (c :: drop_blank_items r) | [] => [[]] end.
+Definition trim_last (tr : list str) : list str := own_line (rev (drop_blank_items (rev tr))).
+
+Fixpoint norm_middle (l : list (list str)) : list (list str) :=
+  match l with
+  | [] => []
+  | [e] => [trim_last e]
+  | x :: r => own_line x :: norm_middle r
+  end.
+Definition norm_boundaries (l : list (list str)) : list (list str) :=
+  match l with
+  | [] => []
+  | [e] => [trim_last (trim_first e)]
+  | x :: r => trim_first x :: norm_middle r
+  end.
